@@ -3,7 +3,7 @@ From Coq Require Import QArith List ZArith.
 Import ListNotations.
 
 (* true answers; the guard excludes the pole 0^negative (refuted without it: P_refuted_real_pole.v);
-   the false answers are refuted (P_refuted_real_false_mul.v, P_refuted_real_false_add.v) *)
+   the false answers are refuted (P_refuted_real_false_mul.v) *)
 Theorem C34_real_sound_guarded : forall rho st A, assum_of st = Ok A -> osat rho st ->
   forall e v, keys_ok e = true -> is_real A e = QT TT -> denote rho e = Some v -> v <> VZoo -> v_real v.
 Proof. exact real_final_guarded. Qed.
